@@ -198,7 +198,12 @@ def main():
                 applies = r2.returncode == 0
             meta = {"id": sid, "breaks_property": prop, "needs_to_manifest": NEEDS.get(sid, ""),
                     "source": "written by a fresh sub-agent that saw only the property text and its own scratch worktree" + src2,
-                    "patch_applies_to_repo_head": applies}
+                    "patch_applies_to_repo_head": applies,
+                    "repo_head": subprocess.run(["git", "-C", REPO, "log", "--format=%h", "-1"], capture_output=True, text=True).stdout.strip()}
+            if os.path.exists(os.path.join(d, "patch.orig.diff")):
+                meta["patch_ported"] = ("patch.diff is the agent's change re-applied onto the current /repo (fix commits rewrote the code "
+                                        "around it; 3-way merge by tools/rebase_seeds.sh or a hand port that keeps the mechanism); the "
+                                        "agent's own diff is patch.orig.diff")
             if not applies:
                 meta["note"] = "patch no longer applies to /repo HEAD: " + (r.stderr or "")[-300:]
             else:
